@@ -27,13 +27,13 @@ type Env struct {
 	alphabetInfo map[string]interface{}
 	boundInfo    map[string]interface{}
 
-	sql   *sqlFx
-	pg    *pgFx
-	my    *myFx
-	tok   *tokFx
-	ring  *ringFx
-	tier  string
-	fam   map[string][]*Space
+	sql  *sqlFx
+	pg   *pgFx
+	my   *myFx
+	tok  *tokFx
+	ring *ringFx
+	tier string
+	fam  map[string][]*Space
 }
 
 // families in a fixed order; every family is built on first use (a restarted worker only
@@ -102,7 +102,7 @@ func (l *lazySpace) get() *Space {
 }
 
 type orderT struct {
-	Tier   string     `json:"tier"`
+	Tier   string      `json:"tier"`
 	Spaces [][3]string `json:"spaces"` // name, group, N
 }
 
@@ -296,7 +296,9 @@ func (e *Env) sigma(group, name string, a alphabet, maxL int, decs []*Decoder, p
 				}
 				return append(b, suffix...)
 			},
-			Desc: func(i int) string { return fmt.Sprintf("token sequence #%d of length %d over alphabet %s", i, l, a.Name) },
+			Desc: func(i int) string {
+				return fmt.Sprintf("token sequence #%d of length %d over alphabet %s", i, l, a.Name)
+			},
 		})
 	}
 	return out
@@ -450,11 +452,11 @@ type fb struct {
 	be     bool
 }
 
-func (b *fb) raw(p ...byte) *fb   { b.buf = append(b.buf, p...); return b }
-func (b *fb) str(s string) *fb    { b.buf = append(b.buf, s...); return b }
-func (b *fb) cstr(s string) *fb   { b.buf = append(append(b.buf, s...), 0); return b }
-func (b *fb) bytes(p []byte) *fb  { b.buf = append(b.buf, p...); return b }
-func (b *fb) pos() int            { return len(b.buf) }
+func (b *fb) raw(p ...byte) *fb  { b.buf = append(b.buf, p...); return b }
+func (b *fb) str(s string) *fb   { b.buf = append(b.buf, s...); return b }
+func (b *fb) cstr(s string) *fb  { b.buf = append(append(b.buf, s...), 0); return b }
+func (b *fb) bytes(p []byte) *fb { b.buf = append(b.buf, p...); return b }
+func (b *fb) pos() int           { return len(b.buf) }
 func (b *fb) num(name string, width int, v uint64) *fb {
 	b.fields = append(b.fields, fld{name, len(b.buf), width, b.be})
 	tmp := make([]byte, width)
